@@ -14,7 +14,7 @@ import knncommon as K
 import terms as T
 
 PID = "C12"
-DESIGN = {"quick": [("Knn.n3.cfg", 1), ("Knn.n4.cfg", 1)], "thorough": [("Knn.n3.cfg", 1), ("Knn.n4.cfg", 1), ("Knn.n5.cfg", 1)]}
+DESIGN = {"quick": [("Knn.n3.cfg", 1), ("Knn.n4.cfg", 1), ("Knn.n3dir.cfg", 1)], "thorough": [("Knn.n3.cfg", 1), ("Knn.n4.cfg", 1), ("Knn.n5.cfg", 1), ("Knn.n3dir.cfg", 1), ("Knn.n4dir.cfg", 2)]}
 
 
 def arcs_trace(np, c, D, k, adj, radius, maxd, bound):
@@ -70,7 +70,7 @@ def one_case(rep, scn, k, kp, heights, tm):
     if not np.all(np.isfinite(D)) or np.any(D < 0):
         rep.skip("non_finite_or_negative_distance")
         return None
-    if not np.array_equal(D, D.T):
+    if not np.array_equal(D, D.T) and not scn.get("asym"):
         rep.skip("float_matrix_not_bit_symmetric")
         return None
     site = "KNNSubgraph"
@@ -214,6 +214,32 @@ def scenarios(rep, tier, seed):
         k = rng.randrange(1, 6)
         kp = rng.randrange(1, min(k, n - 1) + 1)
         out.append(({"mode": "pre", "metric": "euclidean", "Z": [[float(i)] for i in range(n)], "D": D2.tolist(), "I": I, "rebound": len(out) % 4 == 2}, k, kp))
+    # directed dissimilarities: every rank matrix n = 3 over {0,1,2} with d(i,j) and d(j,i) independent, as pre-computed matrices
+    # (row i of the matrix holds the distances FROM sample i), plus random asymmetric matrices and the non-symmetric identifiers
+    dmats = K.tlc_matrices(rep, 3, 2, directed=True)
+    for Wm in (dmats if thorough else dmats[:: 3]):
+        n = len(Wm)
+        I = list(range(n))
+        rng.shuffle(I)
+        D2 = np.zeros((n + 1, n + 1))
+        for a in range(n):
+            for b in range(n):
+                D2[I[a], I[b]] = Wm[a][b]
+        k = rng.randrange(1, 4)
+        out.append(({"mode": "pre", "metric": "euclidean", "Z": [[float(i)] for i in range(n)], "D": D2.tolist(), "I": I, "asym": True, "rebound": len(out) % 3 == 0}, k, rng.randrange(1, min(k, n - 1) + 1)))
+    rng4 = random.Random(seed * 1000003 + 1212)
+    for i in range(400 if thorough else 60):
+        n = rng4.randrange(3, 10)
+        r = np.random.default_rng(rng4.randrange(2**31))
+        k = rng4.randrange(1, 6)
+        kp = rng4.randrange(1, min(k, n - 1) + 1)
+        if i % 2:
+            Dm = np.round(r.random((n, n)) * (4 if i % 4 == 1 else 1000)) if i % 4 == 1 else r.random((n, n))
+            np.fill_diagonal(Dm, 0.0)
+            out.append(({"mode": "pre", "metric": "euclidean", "Z": [[float(j)] for j in range(n)], "D": Dm.tolist(), "I": list(range(n)), "asym": True}, k, kp))
+        else:
+            Z = np.abs(r.normal(size=(n, 3))) + 0.25
+            out.append(({"mode": "metric", "metric": ("pearson", "neyman")[(i // 2) % 2], "Z": Z.tolist(), "asym": True}, k, kp))
     rep.cov["tlc_scenarios_replayed"] = len(out)
     nf = 2500 if thorough else 300
     mets = ["euclidean", "log_squared_euclidean", "manhattan", "chebyshev", "squared_euclidean", "gower", "lorentzian", "average_euclidean"]
@@ -289,7 +315,7 @@ def run(tier, seed):
     if traces:
         rep.sample({"scenario": {kk: (v if kk not in ("Z", "D") else "...") for kk, v in traces[-1][0].items()}, "k": traces[-1][1], "arcs_trace": traces[-1][2]})
     judge_arcs(rep, traces)
-    rep.cov["rule"] = "fresh KNNSubgraph per case; all symmetric rank matrices n<=4 (pre-computed, permuted index arrays) and float data (lattice, duplicates, tiny distances, densest-first/last orderings); k 1..6 incl. k>n-1; a third of the cases reset the density bound to the kp-th per-rank maximum between create_arcs and calculate_pdf (the k-range use of UnsupervisedOPF); heights {-1,0,.5,1,999,1000,2000}"
+    rep.cov["rule"] = "fresh KNNSubgraph per case; all symmetric rank matrices n<=4 and all directed ones n=3 (pre-computed, permuted index arrays), random asymmetric matrices, non-symmetric identifiers, and float data (lattice, duplicates, tiny distances, densest-first/last orderings); k 1..6 incl. k>n-1; a third of the cases reset the density bound to the kp-th per-rank maximum between create_arcs and calculate_pdf (the k-range use of UnsupervisedOPF); heights {-1,0,.5,1,999,1000,2000}"
     rep.assumptions = ["TLC for the discrete clauses", "numeric clauses: formula held in KnnTerms.tla, evaluated in float64 by lib/terms.py and compared under rtol 1e-9 x conditioning scale (sampling over the reals, not model checking)", "create_arcs is judged on fresh subgraphs (the density bound is not reset between calls on a reused subgraph)"]
     return rep.finish()
 
